@@ -2,7 +2,7 @@
    POSIX instance of is_relative) and the extracted canonical-form predicate (coq/Path/PathSpec.v).
 
    clean np=<0|1> terrain=<0|1> p=<hex> [other keys ignored]
-       M=<hex clean p> M2=<hex clean (clean p)> S=<1|0 canonical (clean p)> X=<1|0 mixed p>
+       M=<hex clean p> M2=<hex clean (clean p)> S=<1|0 canonical (clean p)>
    load  ... : the same on cstr p (a path read back from a file stops at its first NUL byte)
    canon np= terrain= p=<hex>
        S=<1|0 canonical p>      (used to evaluate the spec on the implementation's outputs) *)
@@ -35,7 +35,6 @@ let run_case (c : case) : string =
     let m = clean_posix np terrain p in
     let m2 = clean_posix np terrain m in
     "M=" ^ hex_of_bytes m ^ " M2=" ^ hex_of_bytes m2 ^ " S=" ^ b01 (canonical_posix np terrain m)
-    ^ " X=" ^ b01 (mixed p)
   | "canon" -> "S=" ^ b01 (canonical_posix np terrain p)
   | _ -> "M=? S=?"
 
